@@ -68,7 +68,7 @@ func hE2E(dir string) {
 				break
 			}
 		}
-		lastRev = 0
+		lastRev, lastTerm = 0, 0 // per table: every table is a Raft shard with terms of its own
 		out.Line("reset", "ok")
 		out.Line("new 0", "ok")
 		out.Line("new 1", "ok")
